@@ -398,6 +398,21 @@ fn scoring(seed: u64, rounds: usize, rep: &mut Report) {
                 other => rep.violation("C15/IndividualGenerator/genome-or-score", || json!({"sample": "second from the same generator value", "expected_serial": expect2, "scorer_calls": log, "observed": format!("{other:?}")})),
             }
         }
+        // a scorer handed over by reference (the forwarding impl for &T) scores the same genome the same way
+        {
+            SCORED.with(|l| l.borrow_mut().clear());
+            let mut rng3 = TraceRng::new(s);
+            let scorer = RecScorer;
+            let by_ref = catch(|| IndividualGenerator::new(SerialGenomes, &scorer).sample(&mut rng3));
+            let by_ref2 = catch(|| SerialGenomes.with_scorer(&&scorer).sample(&mut rng3));
+            let log = SCORED.with(|l| l.borrow().clone());
+            rep.eval();
+            let expect2 = { let mut c = TraceRng::new(s); c.next_u64(); c.next_u64() };
+            match (by_ref, by_ref2) {
+                (Ok(a), Ok(b)) if a.genome.serial == expect_serial && a.test_results == (expect_serial.rotate_left(9), a.genome.payload.len()) && b.genome.serial == expect2 && b.test_results == (expect2.rotate_left(9), b.genome.payload.len()) && log == vec![expect_serial, expect2] => {}
+                other => rep.violation("C15/IndividualGenerator/genome-or-score", || json!({"sample": "scorer handed over as &T and &&T", "expected_serials": [expect_serial, expect2], "scorer_calls": log, "observed": format!("{other:?}")})),
+            }
+        }
         // the WithScorer convenience builds the same generator
         SCORED.with(|l| l.borrow_mut().clear());
         let mut rng2 = TraceRng::new(s);
